@@ -708,6 +708,140 @@ def run_zerophase(root, ctx, tier):
 
 
 # ---------------------------------------------------------------------------
+# history: what was done to OTHER objects earlier in the process must not matter.
+#
+# Before preprocess is called, unrelated time series with the same time step are filtered through the public
+# primitive with the same corners and OTHER filter orders, split with other window lengths and detrended;
+# the windows are compared bit for bit with those of the same call in a process without history
+# (engine/pristine.py).
+
+_SERVER = None
+HISTORY_WINDOWS = ["1", "2.56"]
+HISTORY_LENGTHS = ["3k+2", "2k"]
+
+
+def _history_records(rate, n, k, nrec):
+    specs = record_specs(rate, n, k, nrec)
+    return [make_record({c: np.array(comps[c]) for c in COMPONENTS}, dt_of(rate), dfn) for comps, dfn in specs]
+
+
+def _history_call(req):
+    rate, window, label = req["rate"], req["window"], req["length"]
+    k = RT.intervals(window, rate)
+    n = n_samples_of(label, k)
+    recs = _history_records(rate, n, k, req["nrec"])
+    settings = make_settings(window, req["corners"], req["detrend"], req["orient"])
+    out = _call(lambda: hvsrpy.preprocess(recs[0] if req["nrec"] == "one" else recs, settings))
+    if out[0] == "raised":
+        return out
+    return ("ok", [tuple(np.array(getattr(w, c).amplitude) for c in COMPONENTS) for w in out[1]])
+
+
+def _other_objects_first(rate, corners, window):
+    dt = dt_of(rate)
+    x = _hash_noise(12 * rate + 7, 5) + 0.5
+    for order in (3, 2, 8):
+        if corners != [None, None]:
+            TimeSeries(np.array(x), dt).butterworth_filter(tuple(corners), order=order)
+    ts = TimeSeries(np.array(x), dt)
+    for w in ts.split(float(window) * 1.5):
+        w.detrend(type="constant")
+    TimeSeries(np.array(x[:rate + 1]), dt).detrend(type="linear")
+
+
+def run_history(root, ctx, tier):
+    rate = root["rate"]
+    for window in HISTORY_WINDOWS:
+        for label in HISTORY_LENGTHS:
+            for ci, di, oi, ni in root["cases"]:
+                req = dict(rate=rate, window=window, length=label, corners=CORNERS[ci], detrend=DETREND[di],
+                           orient=ORIENT[oi], nrec=NREC[ni])
+                ctx.count("states")
+                want = _SERVER.request(req) if _SERVER is not None else None
+                _call(lambda: _other_objects_first(rate, req["corners"], window))
+                got = _history_call(req)
+                ctx.count("transitions", 2)
+                if want is None:
+                    continue
+                ctx.count("validated")
+                ctx.count("history_cases")
+                ctx.nontrivial_case(("history", rate, window, label, ci, di, oi, ni))
+                same = got[0] == want[0] and (
+                    (got[0] == "raised" and got[1:] == want[1:]) or
+                    (got[0] == "ok" and len(got[1]) == len(want[1]) and
+                     all(bitwise_equal(a, b) for wa, wb in zip(got[1], want[1]) for a, b in zip(wa, wb))))
+                ctx.outcome(("history", got[0], len(got[1]) if got[0] == "ok" else got[1]))
+                if not same:
+                    ctx.violation("C10:preprocess:depends-on-earlier-calls-on-other-objects", root,
+                                  detail=dict(req, earlier="butterworth_filter(same corners, order 3 / 2 / 8), split and "
+                                                           "detrend of unrelated TimeSeries with the same time step"),
+                                  expected="the windows of the same call in a process without history",
+                                  observed="other windows" if got[0] == "ok" else got[1:],
+                                  explanation="preprocess gives other windows after unrelated objects were filtered "
+                                              "/ split / detrended earlier in the process")
+
+
+# ---------------------------------------------------------------------------
+# many recordings with different time steps in one call: the windows of recording i are those of
+# preprocess(recording i), in the order of the recordings
+
+MIXED_PATTERNS = [[0, 1, 0], [1, 0, 0, 1], [0, 1, 2, 0, 1], [0, 0, 1]]
+
+
+def run_mixed(root, ctx, tier):
+    rates = root["rates"]
+    window = root["window"]
+    for pattern in MIXED_PATTERNS:
+        for ci, di in root["cases"]:
+            corners, detrend = CORNERS[ci], DETREND[di]
+            case = dict(rates=[rates[i] for i in pattern], window=window, corners=corners, detrend=detrend)
+
+            def build():
+                recs = []
+                for pos, i in enumerate(pattern):
+                    rate = rates[i]
+                    k = RT.intervals(window, rate)
+                    n = 2 * k + 3 + pos
+                    recs.append(make_record(busy_components(n, rate, 20 + pos), dt_of(rate), 0.0))
+                return recs
+            settings = make_settings(window, corners, detrend, None)
+            settings.ignore_dissimilar_time_step_warning = True
+            ctx.count("states")
+            joint = _call(lambda: hvsrpy.preprocess(build(), settings))
+            singles = [_call(lambda r=r: hvsrpy.preprocess([r], make_settings(window, corners, detrend, None)))
+                       for r in build()]
+            ctx.count("transitions", 1 + len(pattern))
+            ctx.count("validated")
+            ctx.count("mixed_dt_cases")
+            if joint[0] == "raised" or any(x[0] == "raised" for x in singles):
+                if not (joint[0] == "raised" and any(x[0] == "raised" for x in singles)):
+                    ctx.violation("C10:preprocess:mixed-time-steps:raises-unlike-single-recordings", root, detail=case,
+                                  observed=[joint[:2]] + [x[:2] for x in singles],
+                                  explanation="preprocess of the list and of its recordings do not fail alike")
+                continue
+            want = [w for x in singles for w in x[1]]
+            got = joint[1]
+            ctx.nontrivial_case(("mixed", tuple(case["rates"]), window, ci, di))
+            ctx.outcome(("mixed", len(got), tuple(w.ns.n_samples for w in got)))
+            ok = len(got) == len(want) and all(
+                w.ns.dt_in_seconds == v.ns.dt_in_seconds and
+                all(bitwise_equal(getattr(w, c).amplitude, getattr(v, c).amplitude) for c in COMPONENTS)
+                for w, v in zip(got, want))
+            if not ok:
+                ctx.violation("C10:preprocess:mixed-time-steps:windows-not-in-order-of-recordings", root, detail=case,
+                              expected=[(v.ns.n_samples, v.ns.dt_in_seconds) for v in want],
+                              observed=[(w.ns.n_samples, w.ns.dt_in_seconds) for w in got],
+                              explanation="the windows returned for a list of recordings with different time steps "
+                                          "are not the windows of each recording, in the order of the recordings")
+
+
+def warm():
+    global _SERVER
+    from hvmc.engine import pristine
+    _SERVER = pristine.PristineServer(_history_call).start()
+
+
+# ---------------------------------------------------------------------------
 # runner interface
 
 def _order_cases(tier):
@@ -732,6 +866,14 @@ def roots(tier, seed):
     for rate in RATES:
         for label in UNSPLIT_LENGTHS:
             out.append(dict(kind="unsplit", rate=rate, length=label, cases=unsplit_cases))
+    hist_cases = [[ci, di, oi, ni] for ci in range(len(CORNERS)) for di in (0, 2) for oi in (0, 2)
+                  for ni in range(len(NREC))]
+    for rate in (RATES[:3] if tier == "quick" else RATES):
+        out.append(dict(kind="history", rate=rate, cases=hist_cases if tier != "quick" else hist_cases[::3]))
+    for rates in ([100, 50, 75], [300, 128, 500]):
+        for window in (["1"] if tier == "quick" else ["1", "2.56", "0.5"]):
+            out.append(dict(kind="mixed-dt", rates=rates, window=window,
+                            cases=[[ci, di] for ci in range(len(CORNERS)) for di in (0, 1, 2)]))
     groups = {}
     cases, _ = _order_cases(tier)
     for c in cases:
@@ -754,6 +896,10 @@ def run_root(root, ctx, tier):
         run_order(root, ctx, tier)
     elif kind == "zerophase":
         run_zerophase(root, ctx, tier)
+    elif kind == "history":
+        run_history(root, ctx, tier)
+    elif kind == "mixed-dt":
+        run_mixed(root, ctx, tier)
     elif kind == "non-vacuity":
         pass        # raised by finalize(); there is no single case to re-execute
     else:
@@ -761,7 +907,15 @@ def run_root(root, ctx, tier):
 
 
 def finalize(ctx, tier):
+    global _SERVER
+    if _SERVER is not None:
+        _SERVER.stop()
+        _SERVER = None
     c = ctx.counters
+    for name in ("history_cases", "mixed_dt_cases"):
+        if not c.get(name, 0):
+            ctx.violation(f"C10:harness:non-vacuity:{name}", dict(kind="non-vacuity"),
+                          explanation=f"counter {name} is zero: the family never ran")
     for wrong in ("filter-after-split", "detrend-before-split"):
         if not c.get("wrong_order_differs:" + wrong, 0):
             ctx.violation(f"C10:harness:non-vacuity:{wrong}", dict(kind="non-vacuity"),
